@@ -113,6 +113,7 @@ func c11BindOf(f *schema.Field) interface{} {
 }
 
 type c11BindPend struct {
+	batch     []c11BindPend // answers of one bind.batch op
 	key, what string
 	real      interface{}
 	input     interface{}
@@ -160,26 +161,30 @@ func c11BindOps(r *Result, label string, s *schema.Schema, typ reflect.Type, par
 		rng.Shuffle(len(qs), func(i, j int) { qs[i], qs[j] = qs[j], qs[i] })
 		qs = qs[:budget]
 	}
+	var batch []interface{}
+	var batchPend []c11BindPend
 	for _, x := range qs {
 		var real *schema.Field
 		if pn := c11Safely(func() { real = s.LookUpFieldByBindName(x.bn, x.name) }); pn != nil {
 			r.Violate(Violation{Kind: "correspondence", Suite: "bind-resolve", Input: label, Observed: fmt.Sprint("panic: ", pn)})
 			continue
 		}
-		*ops = append(*ops, []interface{}{"bind.lookup", fields, x.bn, x.name})
+		batch = append(batch, []interface{}{x.bn, x.name})
 		lvl := "none"
 		if real != nil {
 			lvl = fmt.Sprintf("level%d/of%d", len(real.BindNames)-1, len(x.bn)-1)
 		}
 		r.H("bind.lookup", lvl)
-		*pend = append(*pend, c11BindPend{key: label + "|" + strings.Join(x.bn, ".") + "|" + x.name, what: "LookUpFieldByBindName", real: c11BindOf(real),
+		batchPend = append(batchPend, c11BindPend{key: label + "|" + strings.Join(x.bn, ".") + "|" + x.name, what: "LookUpFieldByBindName", real: c11BindOf(real),
 			input: map[string]interface{}{"model": label, "fields": fields, "bindNames": x.bn, "name": x.name}})
 	}
 	for _, n := range names {
-		*ops = append(*ops, []interface{}{"field.lookup", fields, n})
-		*pend = append(*pend, c11BindPend{key: label + "|*|" + n, what: "LookUpField", real: c11BindOf(s.LookUpField(n)),
+		batch = append(batch, []interface{}{nil, n})
+		batchPend = append(batchPend, c11BindPend{key: label + "|*|" + n, what: "LookUpField", real: c11BindOf(s.LookUpField(n)),
 			input: map[string]interface{}{"model": label, "fields": fields, "name": n}})
 	}
+	*ops = append(*ops, []interface{}{"bind.batch", fields, batch})
+	*pend = append(*pend, c11BindPend{batch: batchPend})
 	ns := schema.NamingStrategy{}
 	var relNames []string
 	for n := range s.Relationships.Relations {
@@ -192,10 +197,29 @@ func c11BindOps(r *Result, label string, s *schema.Schema, typ reflect.Type, par
 			continue
 		}
 		tags := c11TagKeysOf(rel.Field)
-		if tags["FOREIGNKEY"] || tags["REFERENCES"] || tags["MANY2MANY"] || tags["POLYMORPHIC"] || tags["POLYMORPHICTYPE"] {
+		if tags["REFERENCES"] || tags["MANY2MANY"] || tags["POLYMORPHIC"] || tags["POLYMORPHICTYPE"] {
 			continue
 		}
 		ref := rel.References[0]
+		if tags["FOREIGNKEY"] {
+			// an explicit `foreignKey:X` is resolved model-wide by LookUpField(X) on the foreign schema, wherever the relation sits
+			fk := c11TagKeys(rel.Field.StructField)["FOREIGNKEY"]
+			if strings.Contains(fk, ",") {
+				continue
+			}
+			ff, bad := fields, ""
+			if rel.Type != schema.BelongsTo {
+				ff, bad = parseChild(rel)
+			}
+			if bad != "" {
+				continue
+			}
+			op := []interface{}{"field.lookup", ff, fk}
+			*ops = append(*ops, op)
+			r.H("bind.guess", fmt.Sprintf("explicit-tag/relation-depth%d/key-depth%d", len(rel.Field.BindNames)-1, len(ref.ForeignKey.BindNames)-1))
+			*pend = append(*pend, c11BindPend{key: label + "|tag|" + rn, what: "foreign key named by the foreignKey tag of " + rn, real: c11BindOf(ref.ForeignKey), input: map[string]interface{}{"model": label, "op": op}})
+			continue
+		}
 		var op []interface{}
 		kind := ""
 		switch rel.Type {
@@ -322,7 +346,11 @@ func c11GenModel(rng *rand.Rand) *c11GenNode {
 		}
 		at := nodes[rng.Intn(len(nodes))]
 		pos := rng.Intn(len(at.Fields) + 1)
-		at.Fields = append(at.Fields[:pos], append([]c11GenField{{Name: rn, Kind: "rel"}}, at.Fields[pos:]...)...)
+		rf := c11GenField{Name: rn, Kind: "rel"}
+		if rng.Intn(4) == 0 {
+			rf.Tag = `gorm:"foreignKey:` + rn + `ID"`
+		}
+		at.Fields = append(at.Fields[:pos], append([]c11GenField{rf}, at.Fields[pos:]...)...)
 		has := false
 		for _, f := range root.Fields {
 			if f.Name == rn+"ID" {
@@ -397,8 +425,10 @@ func c11BindResolveSuite(r *Result, rng *rand.Rand, tier string) {
 		before := len(pend)
 		c11BindOps(r, label, s, typ, func(*schema.Relationship) ([]interface{}, string) { return nil, "no has-relations generated" }, &ops, &pend, rng, 60)
 		for k := before; k < len(pend); k++ {
-			if m, ok := pend[k].input.(map[string]interface{}); ok {
-				m["declaration"] = root.describe()
+			for _, bp := range append([]c11BindPend{pend[k]}, pend[k].batch...) {
+				if m, ok := bp.input.(map[string]interface{}); ok {
+					m["declaration"] = root.describe()
+				}
 			}
 		}
 	}
@@ -408,9 +438,30 @@ func c11BindResolveSuite(r *Result, rng *rand.Rand, tier string) {
 		return
 	}
 	bad := 0
+	type one struct {
+		p    c11BindPend
+		want interface{}
+	}
+	var all []one
 	for i, p := range pend {
+		if p.batch != nil {
+			var wants []interface{}
+			_ = json.Unmarshal(outs[i], &wants)
+			if len(wants) != len(p.batch) {
+				r.Violate(Violation{Kind: "correspondence", Suite: "bind-resolve", Note: "bind.batch: bad answer " + string(outs[i])})
+				continue
+			}
+			for k, bp := range p.batch {
+				all = append(all, one{bp, wants[k]})
+			}
+			continue
+		}
 		var want interface{}
 		_ = json.Unmarshal(outs[i], &want)
+		all = append(all, one{p, want})
+	}
+	for _, o := range all {
+		p, want := o.p, o.want
 		r.CorrCompared++
 		r.Case("bind-resolve", p.key, p.real != nil)
 		if canon(want) != canon(p.real) {
